@@ -70,7 +70,7 @@ LONG = [
 def mutate(rng, text):
     lines = text.split("\n")
     for _ in range(rng.randint(1, 4)):
-        op = rng.choice(["del", "dup", "swap", "char", "brace", "digits", "insert", "header"])
+        op = rng.choice(["del", "dup", "swap", "char", "brace", "digits", "insert", "header", "cut"])
         if not lines:
             break
         i = rng.randrange(len(lines))
@@ -100,6 +100,12 @@ def mutate(rng, text):
                 m = rng.choice(ms)
                 new = str(rng.choice([0, 1, 7, 64, 99999999, 12345678, rng.randint(0, 10 ** 8 - 1)]))
                 lines[i] = lines[i][:m.start()] + new + lines[i][m.end():]
+        elif op == "cut":
+            ks = [k for k, l in enumerate(lines) if "=" in l]
+            if ks:
+                k = rng.choice(ks)
+                j = lines[k].index("=")
+                lines[k] = lines[k][:j + 1] + rng.choice(["", " ", "  ", " \t"])
         elif op == "insert":
             lines.insert(i, rng.choice(["", "// comment", "  ", "garbage", "[Song]", "{", "}", "[x]", "  0 = N 0 0", "  0 = B 0", "Resolution = 0", "  Player2 = drums"]))
         elif op == "header":
@@ -112,7 +118,7 @@ def mutate(rng, text):
     return "\n".join(lines)
 
 
-FRAGS = ["[Song]", "{", "}", "[SyncTrack]", "[Events]", "[ExpertSingle]", "[HardDrums]", "[Foo]", "  Resolution = 192", "  Resolution = 0", "  0 = TS 4", "  0 = B 120000", "  0 = B 0",
+FRAGS = ["  768 = ", "  768 =", "=", " = ", "[Song]", "{", "}", "[SyncTrack]", "[Events]", "[ExpertSingle]", "[HardDrums]", "[Foo]", "  Resolution = 192", "  Resolution = 0", "  0 = TS 4", "  0 = B 120000", "  0 = B 0",
          "  100 = B 60000", "  50 = B 1", '  0 = E "section a"', '  5 = E "lyric b"', "  0 = N 0 0", "  0 = N 5 0", "  0 = N 7 10", "  10 = N 1 5", "  10 = S 2 5", "  10 = E solo", "  0 = A 5",
          "  Player2 = drums", "  Offset = 12345678", "", "garbage"]
 
@@ -160,7 +166,7 @@ def run(ctx, only=None):
     if only:
         cs = [make_case(c["text"], "replay") for c in only if c]
     else:
-        cs = cases(ctx, 500 if ctx["tier"] == "quick" else 20000)
+        cs = cases(ctx, 500 if ctx["tier"] == "quick" else 8000)
     return run_cases("C18", cs, IN_TYPE, PARSE_OUT, VERDICT, SPEC, shard_size=30)
 
 
